@@ -93,6 +93,28 @@ enum Prev {
     CancelledYieldingDrop,
 }
 
+/// how the fresh coroutine ends after its first park returned
+#[derive(Clone, Copy, PartialEq, Debug)]
+enum End {
+    Returns,
+    /// cancelled while parked: its join must report Cancel and nothing else
+    Cancelled,
+    /// panics with its own typed payload: its join must deliver exactly that payload
+    Panics,
+}
+
+#[derive(Debug)]
+struct OwnPayload(u32);
+static FRESH_PARKED: AtomicBool = AtomicBool::new(false);
+static PREV_DONE: AtomicBool = AtomicBool::new(false);
+
+struct SetOnDrop(&'static AtomicBool);
+impl Drop for SetOnDrop {
+    fn drop(&mut self) {
+        self.0.store(true, Ordering::SeqCst);
+    }
+}
+
 struct YieldOnDrop;
 impl Drop for YieldOnDrop {
     fn drop(&mut self) {
@@ -101,10 +123,12 @@ impl Drop for YieldOnDrop {
 }
 
 /// pool capacity 1, one worker: the fresh coroutine F provably reuses the stack of the previous occupant P
-fn fresh_start(e: &'static Engine, prev: Prev, workers: usize) {
+/// `detached`: P's JoinHandle is dropped before P runs (nobody collects its result)
+fn fresh_start(e: &'static Engine, prev: Prev, workers: usize, detached: bool, end: End) {
     rt_init_opts(workers, 1, 0x4000, 3_600_000_000_000);
     e.begin();
     let p = go!(move || {
+        let _done = SetOnDrop(&PREV_DONE);
         let marker = 0u8;
         STACK_ADDR[0].store(&marker as *const u8 as usize, Ordering::SeqCst);
         K1.with(|c| c.set(99));
@@ -135,7 +159,14 @@ fn fresh_start(e: &'static Engine, prev: Prev, workers: usize) {
     if matches!(prev, Prev::CancelledParked | Prev::CancelledRunnable | Prev::CancelledYieldingDrop) {
         unsafe { p.coroutine().cancel() };
     }
-    let _ = p.join();
+    if detached {
+        drop(p);
+        e.wait_flag(&PREV_DONE);
+        // the stack goes back to the pool after the closure ended: wait until the runtime is idle
+        e.quiesce();
+    } else {
+        let _ = p.join();
+    }
     let f = go!(move || {
         let marker = 0u8;
         STACK_ADDR[1].store(&marker as *const u8 as usize, Ordering::SeqCst);
@@ -146,12 +177,37 @@ fn fresh_start(e: &'static Engine, prev: Prev, workers: usize) {
         *SLOT.lock().unwrap() = Some(b.clone());
         READY.store(true, Ordering::SeqCst);
         let r = b.park(None);
+        match end {
+            End::Returns => {}
+            End::Cancelled => {
+                FRESH_PARKED.store(true, Ordering::SeqCst);
+                loop {
+                    coroutine::park();
+                }
+            }
+            End::Panics => std::panic::panic_any(OwnPayload(4242)),
+        }
         (v1, v2, r.is_ok())
     });
     e.wait_flag(&READY);
     let b = SLOT.lock().unwrap().take().unwrap();
     b.unpark();
+    if end == End::Cancelled {
+        e.wait_flag(&FRESH_PARKED);
+        unsafe { f.coroutine().cancel() };
+    }
     match f.join() {
+        Ok(_) if end != End::Returns => e.fail("unexpected_result", "the fresh coroutine was cancelled / panicked but its join returned Ok"),
+        Err(p) if end == End::Cancelled => {
+            if !matches!(p.downcast_ref::<generator::Error>(), Some(generator::Error::Cancel)) {
+                e.fail("stale_result", "the join of the cancelled fresh coroutine delivered a payload that is not Cancel (a leftover of the previous occupant)");
+            }
+        }
+        Err(p) if end == End::Panics => {
+            if !matches!(p.downcast_ref::<OwnPayload>(), Some(OwnPayload(4242))) {
+                e.fail("stale_result", "the join of the panicking fresh coroutine delivered a payload that is not its own");
+            }
+        }
         Ok((v1, v2, ok)) => {
             if v1 != 7 || v2 != 70 {
                 e.fail("inherited_local", &format!("the fresh coroutine read local values {} / {} instead of the initial 7 / 70", v1, v2));
@@ -177,10 +233,24 @@ pub fn build(quick: bool) -> Vec<Scenario> {
     v.push(Scenario::new("C15", "privacy", "local.privacy.n2.r2.w2", Arc::new(|e| privacy(e, 2, 2, 2))));
     v.push(Scenario::new("C15", "privacy", "local.privacy.n3.r1.w2", Arc::new(|e| privacy(e, 2, 3, 1))));
     for prev in [Prev::Returned, Prev::Panicked, Prev::CancelledParked, Prev::CancelledRunnable, Prev::CancelledYieldingDrop, Prev::TimedOutPark, Prev::TimedOutSleep, Prev::TimedOutBlocker] {
-        let s = Scenario::new("C15", "fresh_start", format!("fresh.after_{:?}.w1", prev).to_lowercase(), Arc::new(move |e| fresh_start(e, prev, 1)));
-        v.push(if matches!(prev, Prev::TimedOutPark | Prev::TimedOutSleep | Prev::TimedOutBlocker) { s.t2() } else { s });
+        let timed = matches!(prev, Prev::TimedOutPark | Prev::TimedOutSleep | Prev::TimedOutBlocker);
+        let s = Scenario::new("C15", "fresh_start", format!("fresh.after_{:?}.w1", prev).to_lowercase(), Arc::new(move |e| fresh_start(e, prev, 1, false, End::Returns)));
+        v.push(if timed { s.clone().t2() } else { s });
         if !quick {
-            v.push(Scenario::new("C15", "fresh_start", format!("fresh.after_{:?}.w2", prev).to_lowercase(), Arc::new(move |e| fresh_start(e, prev, 2))));
+            v.push(Scenario::new("C15", "fresh_start", format!("fresh.after_{:?}.w2", prev).to_lowercase(), Arc::new(move |e| fresh_start(e, prev, 2, false, End::Returns))));
+        }
+        // the previous occupant's result is never collected (detached) and / or the fresh coroutine itself ends abnormally
+        for (detached, end) in [(true, End::Cancelled), (true, End::Returns), (false, End::Cancelled), (true, End::Panics), (false, End::Panics)] {
+            if quick && (timed || (!detached && prev != Prev::Panicked) || (end == End::Panics && prev != Prev::Panicked)) {
+                continue;
+            }
+            let s = Scenario::new(
+                "C15",
+                "fresh_start",
+                format!("fresh.after_{:?}{}.then_{:?}.w1", prev, if detached { "_detached" } else { "" }, end).to_lowercase(),
+                Arc::new(move |e| fresh_start(e, prev, 1, detached, end)),
+            );
+            v.push(if timed { s.t2() } else { s });
         }
     }
     v.into_iter().map(|s| s.tier(quick)).collect()
